@@ -172,6 +172,24 @@ class MemoryMappedTensor(torch.Tensor):
             ):
                 # either location was not specified, or memmap is already in the
                 # correct location, so just return the MemmapTensor unmodified
+                if (
+                    filename is not None
+                    and not input.is_nested
+                    and (
+                        input.storage_offset() != 0
+                        or not input.is_contiguous()
+                        or input.numel() * input.element_size()
+                        != input.untyped_storage().nbytes()
+                    )
+                ):
+                    # the input is a view of a part of the file (e.g. one row of a
+                    # memory-mapped tensor): the file does not hold the content of
+                    # the input and cannot be made to without destroying its parent
+                    raise RuntimeError(
+                        f"The tensor is a view of a part of the file {filename}: it cannot be "
+                        f"saved onto that same file. Save it at another location with "
+                        f"copy_existing=True, or clone it first."
+                    )
                 return input
             elif not copy_existing and (
                 input._filename is not None
